@@ -293,3 +293,21 @@ package processor
 //@     invariant [numbers-read-so-far-are-covered] forall(k, 0, rangeindex+1, implies(cvHasFloat(values[k]) && !isNaN(cvFloat(values[k])), p.minVal <= cvFloat(values[k]) && cvFloat(values[k]) <= p.maxVal))
 //@   ensures [range-only-widens] p.minVal <= old(p.minVal) && p.maxVal >= old(p.maxVal)
 //@ end
+
+// C05 (limits take a prefix of the order; `sort 0` = no limit): the limit the
+// sort command hands to the sorter is the configured limit — never negative,
+// never smaller than asked (`sort 0` is parsed as math.MaxUint64).
+//@ func (*sortProcessor).Process
+//@   props C05
+//@   assumecalleerequires
+//@   site call inputIQR.Sort #1:
+//@     assert [limit-handed-to-the-sorter-is-the-configured-one] arg3 >= 0 && implies(p.options.Limit <= 9223372036854775807, uint64(arg3) == p.options.Limit) && implies(p.options.Limit > 9223372036854775807, arg3 == 9223372036854775807)
+//@ end
+//@ func (*sortProcessor).validate
+//@   props C05
+//@   modifies p.err
+//@ end
+//@ func (*sortProcessor).getSortColumns
+//@   props C05
+//@   pure
+//@ end
